@@ -236,11 +236,19 @@ package zuc
 //@   assert after call block#2: m.t == EIAF(KID, P0, 0, M2, 0, (L + PL - len(p)) / 16 + n / 16)
 //@   assert after call block#2: (L + PL - len(p)) / 16 + n / 16 == (L + PL - len(p) + n) / 16
 
-// the final step: memory safety for every buffer fill and every number of extra bits (the bit-level
-// accumulation of the tail is not stated here)
+// the final step: memory safety for every buffer fill and every number of extra bits; the tail is
+// absorbed whenever bytes are buffered or extra bits are given (the extra byte is placed behind the
+// buffered ones, and the key words the tail needs are drawn: two more when more than 64 bits remain).
+// The bit-level accumulation of the tail is not stated here.
 //@ func (*ZUC128Mac).checkSum property C11
 //@   requires m != nil && 0 <= m.nx && m.nx < 16 && 0 <= additionalBits && additionalBits < 8
 //@   nooverflow
+//@   let G := zgen(m.zucState32)
+//@   let NB := 8 * m.nx + additionalBits
+//@   let NX := m.nx
+//@   ensures ZGK(zgen(m.zucState32)) == ZGK(G) && ZGP(zgen(m.zucState32)) == ZGP(G) + ite(NB > 64, 2, 0)
+//@   ensures NB > 0 ==> m.x[NX] == b
+//@   ensures NB > 64 ==> m.k0[5] == ZKW(ZGK(G), ZGP(G) + 1)
 //@   loop 1 invariant 0 <= i && i <= nwords - 1 && nwords <= 4 && 1 <= nwords && m.nx == old(m.nx)
 //@   loop 1 decreases nwords - 1 - i
 //@   loop 2 invariant 0 <= j && j <= 32 && 0 <= i && i < nwords - 1
@@ -361,12 +369,19 @@ package zuc
 //@   assert after call block256#2: (L + PL - len(p)) / 16 + n / 16 == (L + PL - len(p) + n) / 16
 
 // the final step of the ZUC-256 MAC: memory safety for every buffer fill, every number of extra bits
-// and the three tag sizes (the bit-level accumulation of the tail is not stated here)
+// and the three tag sizes; the tail is absorbed whenever bytes are buffered or extra bits are given (four
+// more key words are drawn, the extra byte is placed behind the buffered ones). The bit-level
+// accumulation of the tail is not stated here.
 //@ func (*ZUC256Mac).checkSum property C11
 //@   requires m2shape(m) && 0 <= m.nx && m.nx < 16 && 0 <= additionalBits && additionalBits < 8
 //@   nooverflow
 //@   let TS := m.tagSize
+//@   let G := zgen(m.zucState32)
+//@   let NB := 8 * m.nx + additionalBits
+//@   let NX := m.nx
 //@   ensures len(result) == TS
+//@   ensures ZGK(zgen(m.zucState32)) == ZGK(G) && ZGP(zgen(m.zucState32)) == ZGP(G) + ite(NB > 0, 4, 0)
+//@   ensures NB > 0 ==> m.x[NX] == b
 //@   loop 1 invariant 0 <= l && l <= words - 1 && words <= 4 && 1 <= words && m2shape(m) && m.tagSize == TS && onlychanged(m.t)
 //@   loop 1 decreases words - 1 - l
 //@   loop 2 invariant 0 <= i && i <= 32 && 0 <= l && l < words - 1 && m2shape(m) && m.tagSize == TS && onlychanged(m.t)
